@@ -39,7 +39,10 @@ func (c *Conversation) processAKE(msgType byte, msg []byte) (toSend []messageWit
 
 	switch msgType {
 	case msgTypeDHCommit:
-		c.ake.state, toSendSingle, err = c.ake.state.receiveDHCommitMessage(c, msg)
+		// an unparsable DH-Commit must not touch the key exchange in progress
+		if err = (&dhCommit{}).deserialize(msg); err == nil {
+			c.ake.state, toSendSingle, err = c.ake.state.receiveDHCommitMessage(c, msg)
+		}
 	case msgTypeDHKey:
 		c.ake.state, toSendSingle, err = c.ake.state.receiveDHKeyMessage(c, msg)
 	case msgTypeRevealSig:
